@@ -688,7 +688,7 @@ func main() {
 			"posting lists here have one 64-byte block per namespace; multi-block lists are C08's subject",
 			"Advance keys use namespaces known to the compact namespace table (an unknown namespace cannot be encoded)",
 		},
-		WorkerEnv: []string{"GOMAXPROCS=2"},
+		WorkerEnv: []string{"GOMAXPROCS=1", "GOGC=200"},
 		Build: func(tier string) (kit.Space, string) {
 			bAll := []uint8{0b010101, 0b101110, 0b111111, 0b111000, 0}
 			cAll := []uint8{0b001100, 0b100001, 0}
